@@ -752,3 +752,174 @@ pub fn execute_c03(plan: &Plan) -> Outcome {
         extra_cases: Vec::new(),
     }
 }
+
+// ---------------------------------------------------------------- key chains (identity headers through a chain of relays)
+
+/// C03, key-chain part: the client's password lists k keys `iPSK_1:...:iPSK_{k-1}:uPSK` (drawn from the seed, k = 1..5).
+/// What the real client then puts on the wire - stream request and datagrams - is taken through the chain the
+/// specification describes: relay i checks that identity header i names key i+1 and strips it; the last relay is a
+/// server that knows the user key. The reference does every step; address and payload must come out unchanged.
+pub fn gen_c03_keys(seed: u64, _thorough: bool) -> Plan {
+    let mut g = Gen::new(seed, 33);
+    let cipher = ["2022-blake3-aes-128-gcm", "2022-blake3-aes-256-gcm"][(seed % 2) as usize];
+    let k = 1 + (seed / 2 % 5) as usize;
+    let mut config = gen_config(&mut g, Proto::Shadowsocks, cipher, Transport::Tcp, 0);
+    let keys: Vec<Vec<u8>> = (0..k).map(|_| g.bytes(key_len(cipher))).collect();
+    config.client_password = keys.iter().map(|x| b64(x)).collect::<Vec<_>>().join(":");
+    config.client_mode = "tcp_and_udp".into();
+    let hs = *g.pick(&ALL_HS);
+    let mut f = gen_flow(&mut g, 0, hs, Ending::None, 8000);
+    f.start_ms = 0;
+    f.up = (0..g.range(1, 3)).flat_map(|_| [Op::Write(g.range(1, 2500) as usize), Op::Pause(5)]).collect();
+    f.down = vec![];
+    Plan {
+        property: "C03".into(),
+        scenario: "interop-key-chain".into(),
+        seed,
+        net_seed: g.next(),
+        config,
+        knobs: KnobsPlan::simple(),
+        flows: vec![f],
+        extra: serde_json::json!({ "keys": keys.iter().map(|x| b64(x)).collect::<Vec<_>>(), "udp_sizes": (0..g.range(1, 3)).map(|_| g.range(0, 1200)).collect::<Vec<_>>(), "udp_by_name": g.chance(40) }),
+    }
+}
+
+pub fn execute_c03_keys(plan: &Plan) -> Outcome {
+    use base64ct::Encoding;
+    let cipher = plan.config.cipher.clone();
+    let keys: Vec<Vec<u8>> = plan.extra["keys"].as_array().map(|a| a.iter().filter_map(|x| x.as_str()).filter_map(|x| base64ct::Base64::decode_vec(x).ok()).collect()).unwrap_or_default();
+    let k = keys.len().max(1);
+    let n = key_len(&cipher);
+    let f = plan.flows[0].clone();
+    let udp_sizes: Vec<usize> = serde_json::from_value(plan.extra["udp_sizes"].clone()).unwrap_or_default();
+    let by_name = plan.extra["udp_by_name"].as_bool().unwrap_or(false);
+    let out = rt::run_sim(plan.seed, plan.net_seed, plan.knobs.to_knobs(), || async {
+        let mut findings: Vec<(String, String)> = Vec::new();
+        let Ok(listener) = TcpListener::bind(server_addr()).await else { return (Some("capture bind".to_owned()), findings, 0usize) };
+        let Ok(usock) = UdpSocket::bind(server_addr()).await else { return (Some("capture udp bind".to_owned()), findings, 0) };
+        let client = start_client_json(rt::NODE_CLIENT, plan.config.client_json("127.0.0.1", SERVER_PORT));
+        tokio::task::yield_now().await;
+        if !settle(|| tcp_listening(CLIENT_PORT) && crate::nodes::udp_bound(CLIENT_PORT)).await {
+            return (Some(format!("client did not come up with a list of {k} keys (finished={})", client.is_finished())), findings, 0);
+        }
+        let mut recovered = 0usize;
+        // ---- stream
+        let obs = Arc::new(Mutex::new(FlowObs::default()));
+        let _app = spawn_scoped(run_app(0, f.clone(), obs.clone(), true));
+        let mut wire = Vec::new();
+        if let Ok(Ok((mut s, _))) = tokio::time::timeout(Duration::from_secs(10), listener.accept()).await {
+            let mut buf = vec![0u8; 65536];
+            let mut idle = 0;
+            while idle < 3 {
+                match tokio::time::timeout(Duration::from_millis(300), s.read(&mut buf)).await {
+                    Ok(Ok(m)) if m > 0 => {
+                        wire.extend_from_slice(&buf[..m]);
+                        idle = 0;
+                    }
+                    Ok(_) => break,
+                    Err(_) => idle += 1,
+                }
+            }
+        }
+        let eih_len = 16 * (k - 1);
+        if wire.len() < n + eih_len + 27 {
+            findings.push(("key-chain/no-request".into(), format!("the client sent {} bytes; a request with {} identity headers needs at least {}", wire.len(), k - 1, n + eih_len + 27)));
+        } else {
+            let salt = wire[..n].to_vec();
+            let want = refimpl::ss2022::tcp_eih(&keys, &salt);
+            let bad = (0..k - 1).find(|i| wire[n + 16 * i..n + 16 * i + 16] != want[16 * i..16 * i + 16]);
+            if let Some(i) = bad {
+                findings.push(("key-chain/relay-refuses-stream".into(), format!("relay {} of {}: identity header {} does not name the next key of the chain (it is not AES(identity-subkey(key {}, salt), hash(key {})))", i + 1, k - 1, i + 1, i + 1, i + 2)));
+            } else {
+                // every relay has stripped its header; the last hop knows key k-1 as its own and key k as a user's
+                let mut last_hop = salt.clone();
+                if k >= 2 {
+                    last_hop.extend_from_slice(&wire[n + 16 * (k - 2)..n + 16 * (k - 1)]);
+                }
+                last_hop.extend_from_slice(&wire[n + eih_len..]);
+                let (psk, users): (Vec<u8>, Vec<Vec<u8>>) = if k >= 2 { (keys[k - 2].clone(), vec![keys[k - 1].clone()]) } else { (keys[0].clone(), vec![]) };
+                let mut p = refimpl::ss2022::RequestParser::new(&cipher, &psk, &users, unix_now());
+                match p.feed(&last_hop) {
+                    Err(e) => findings.push(("key-chain/server-refuses-stream".into(), format!("behind {} relays the server refuses the request: {e}", k.saturating_sub(2)))),
+                    Ok(_) => match &p.req {
+                        None => findings.push(("key-chain/server-refuses-stream".into(), "the request header is incomplete".into())),
+                        Some(r) => {
+                            let want_up = expected_up(&f, 0);
+                            if r.addr.as_ref() != Some(&flow_addr(&f)) {
+                                findings.push(("key-chain/address".into(), format!("the server recovered {:?}, the application asked for {:?}", r.addr, flow_addr(&f))));
+                            } else if r.payload != want_up {
+                                findings.push(("key-chain/payload".into(), format!("the server recovered {} payload bytes, the application wrote {} (first difference at {:?})", r.payload.len(), want_up.len(), r.payload.iter().zip(&want_up).position(|(a, b)| a != b))));
+                            } else {
+                                recovered += 1;
+                            }
+                        }
+                    },
+                }
+            }
+        }
+        // ---- datagrams
+        let app = UdpSocket::bind(SocketAddr::new(IpAddr::V4(Ipv4Addr::LOCALHOST), 0)).await.unwrap();
+        let t = crate::scen_udp::UdpTarget { ip: [127, 0, 9, 9], port: 5353, name: by_name.then(|| "key-chain.c03.test".to_owned()), replies: 0, reply_size: 0 };
+        let want_addr = match &t.name {
+            Some(nm) => Addr::Name(nm.as_bytes().to_vec(), t.port),
+            None => Addr::V4(t.ip, t.port),
+        };
+        let mut buf = vec![0u8; 65536];
+        for (i, size) in udp_sizes.iter().enumerate() {
+            let payload = crate::scen_udp::dgram_payload(0, 0, i as u32 + 1, 0, *size);
+            let _ = app.send_to(&crate::scen_udp::socks5_udp_wrap(&t, &payload), SocketAddr::new(IpAddr::V4(Ipv4Addr::LOCALHOST), CLIENT_PORT)).await;
+            match tokio::time::timeout(Duration::from_secs(3), usock.recv_from(&mut buf)).await {
+                Ok(Ok((len, _))) => {
+                    let pkt = &buf[..len];
+                    match refimpl::ss2022::udp_open_aes(&cipher, &keys[0], &[keys[k - 1].clone()], k - 1, pkt, false) {
+                        Err(e) => findings.push(("key-chain/datagram-does-not-open".into(), format!("datagram {i}: header key = first key, body key = last key, {} identity headers: {e}", k - 1))),
+                        Ok((body, _, _, _)) => {
+                            let want = refimpl::ss2022::udp_packet_aes(&cipher, &keys, &body);
+                            if pkt[16..16 + eih_len] != want[16..16 + eih_len] {
+                                let which = (0..k - 1).find(|j| pkt[16 + 16 * j..32 + 16 * j] != want[16 + 16 * j..32 + 16 * j]).unwrap_or(0);
+                                findings.push(("key-chain/relay-refuses-datagram".into(), format!("datagram {i}: identity header {} of {} is not the one the key list spells", which + 1, k - 1)));
+                            } else if body.addr != want_addr || body.payload != payload {
+                                findings.push(("key-chain/datagram-content".into(), format!("datagram {i}: recovered {:?} + {} bytes, sent {:?} + {} bytes", body.addr, body.payload.len(), want_addr, payload.len())));
+                            } else {
+                                recovered += 1;
+                            }
+                        }
+                    }
+                }
+                _ => findings.push(("key-chain/no-datagram".into(), format!("datagram {i} ({size} bytes) was not forwarded"))),
+            }
+        }
+        (None, findings, recovered)
+    });
+    let (startup, findings, recovered) = out.result.clone();
+    let cell = format!("{}/{}-keys", plan.config.cipher, k);
+    let mut v = Vec::new();
+    if let Some(e) = startup {
+        v.push(Violation::new("C03", format!("C03/key-chain/startup/{cell}"), e));
+    }
+    for (oracle, detail) in &findings {
+        v.push(Violation::new("C03", format!("C03/{oracle}/{cell}"), detail.clone()));
+    }
+    for p in &out.panics {
+        v.push(Violation::new("C03", format!("C03/panic/{cell}/key-chain/{}", p.frame), format!("panic in node {}: {} at {}", p.node, p.message, p.location)));
+    }
+    let mut probes = BTreeMap::new();
+    probes.insert("mode_key-chain".to_owned(), 1);
+    probes.insert(format!("key_chain_of_{k}"), 1);
+    probes.insert("key_chain_units_recovered".to_owned(), recovered as u64);
+    Outcome {
+        violations: v,
+        ev_hash: out.world.ev_hash,
+        ev_count: out.world.ev_count,
+        poll_hash: out.poll_hash,
+        polls: out.polls,
+        sim_ns: out.sim_ns,
+        stats: crate::report::world_stats(&out.world),
+        nontrivial: recovered > 0,
+        case_hash: out.poll_hash ^ plan.seed.wrapping_mul(0x9E3779B97F4A7C15),
+        probes,
+        panics: out.panics,
+        extra_evaluations: 0,
+        extra_cases: Vec::new(),
+    }
+}
